@@ -1,21 +1,15 @@
 package c02
 
 import (
-	"bytes"
 	"errors"
 	"fmt"
-	"math/big"
-	"sort"
 	"strings"
 	"testing"
 
-	"github.com/taurusgroup/multi-party-sig/pkg/party"
-	"github.com/taurusgroup/multi-party-sig/verifharness/conv"
 	"github.com/taurusgroup/multi-party-sig/verifharness/ev"
 	"github.com/taurusgroup/multi-party-sig/verifharness/fix"
 	"github.com/taurusgroup/multi-party-sig/verifharness/pbt"
 	"github.com/taurusgroup/multi-party-sig/verifharness/proto"
-	"github.com/taurusgroup/multi-party-sig/verifharness/ref"
 	"github.com/taurusgroup/multi-party-sig/verifharness/sim"
 	"pgregory.net/rapid"
 )
@@ -51,48 +45,6 @@ func classify(c Case) (string, bool) {
 	return fmt.Sprintf("%s|n=%d|t=%d|%s|%s", c.Scheme, c.N, c.T, c.Family, schedShape(c.Sched)), nt
 }
 
-// table is the canonical encoding of the public data one party reports (what must agree everywhere).
-func table(m *proto.Material, id party.ID) (group []byte, rows map[party.ID][]byte, shares map[party.ID]ref.Pt, err error) {
-	rows = map[party.ID][]byte{}
-	shares = map[party.ID]ref.Pt{}
-	switch m.Scheme {
-	case proto.SchemeCMP:
-		c := m.CMP[id]
-		group, _ = c.PublicPoint().MarshalBinary()
-		for j, p := range c.Public {
-			var b bytes.Buffer
-			e, _ := p.ECDSA.MarshalBinary()
-			g, _ := p.ElGamal.MarshalBinary()
-			b.Write(e)
-			b.Write(g)
-			b.Write(p.Paillier.N().Bytes())
-			b.Write(p.Pedersen.N().Bytes())
-			b.Write(p.Pedersen.S().Bytes())
-			b.Write(p.Pedersen.T().Bytes())
-			rows[j] = b.Bytes()
-			shares[j] = conv.Ref(p.ECDSA)
-		}
-		rows["\x00rid"] = append([]byte{}, c.RID...)
-	case proto.SchemeFrost:
-		c := m.Frost[id]
-		group, _ = c.PublicKey.MarshalBinary()
-		for j, p := range c.VerificationShares.Points {
-			rows[j], _ = p.MarshalBinary()
-			shares[j] = conv.Ref(p)
-		}
-	case proto.SchemeFrostTap:
-		c := m.FrostTap[id]
-		group = append([]byte{}, c.PublicKey...)
-		for j, p := range c.VerificationShares {
-			rows[j], _ = p.MarshalBinary()
-			shares[j] = conv.Ref(p)
-		}
-	default:
-		return nil, nil, nil, errors.New("no table")
-	}
-	return
-}
-
 func run(c Case) *pbt.Fail {
 	ids := fix.IDs(c.Family, c.N, c.Pick)
 	if c.Scheme == proto.SchemeDoerner {
@@ -112,119 +64,10 @@ func run(c Case) *pbt.Fail {
 		}
 		return pbt.Failf("error:keygen:"+c.Scheme, err.Error())
 	}
-	return Consistent(m)
-}
-
-// Consistent checks the key-generation consistency conditions of C02 on a complete set of results.
-func Consistent(m *proto.Material) *pbt.Fail {
-	sch := m.Scheme
-	secrets := m.SecretShares()
-	if sch == proto.SchemeDoerner {
-		pr, ps := conv.Ref(m.DoernerR.Public), conv.Ref(m.DoernerS.Public)
-		if !pr.Equal(ps) {
-			return pbt.Failf("group-key-differs:"+sch, "receiver and sender report different public keys")
-		}
-		if pr.Inf {
-			return pbt.Failf("group-key-identity:"+sch, "public key is the identity")
-		}
-		sum := new(big.Int).Add(secrets[m.IDs[0]], secrets[m.IDs[1]])
-		if !ref.BaseMul(sum).Equal(pr) {
-			return pbt.Failf("reconstruction:"+sch, "the two secret shares do not add up to the reported public key")
-		}
-		return nil
+	if is := proto.Consistent(m); is != nil {
+		return pbt.Failf(is.Sig, is.Detail)
 	}
-	// (1) all parties report the same group key and the same table
-	g0, rows0, shares0, err := table(m, m.IDs[0])
-	if err != nil {
-		return pbt.Failf("table", err.Error())
-	}
-	for _, id := range m.IDs[1:] {
-		g, rows, _, _ := table(m, id)
-		if !bytes.Equal(g, g0) {
-			return pbt.Failf("group-key-differs:"+sch, fmt.Sprintf("party %q reports %x, party %q reports %x", id, g, m.IDs[0], g0))
-		}
-		if len(rows) != len(rows0) {
-			return pbt.Failf("table-differs:"+sch, fmt.Sprintf("party %q has %d table rows, party %q has %d", id, len(rows), m.IDs[0], len(rows0)))
-		}
-		for j, r := range rows0 {
-			if !bytes.Equal(rows[j], r) {
-				return pbt.Failf("table-differs:"+sch, fmt.Sprintf("entry for %q differs between parties %q and %q", j, id, m.IDs[0]))
-			}
-		}
-	}
-	for _, id := range m.IDs {
-		if _, ok := shares0[id]; !ok {
-			return pbt.Failf("table-incomplete:"+sch, fmt.Sprintf("no public share for %q", id))
-		}
-	}
-	if len(shares0) != len(m.IDs) {
-		return pbt.Failf("table-incomplete:"+sch, fmt.Sprintf("%d public shares for %d parties", len(shares0), len(m.IDs)))
-	}
-	key := m.Pub
-	if key.Inf {
-		return pbt.Failf("group-key-identity:"+sch, "group key is the identity")
-	}
-	if sch == proto.SchemeFrostTap {
-		if len(g0) != 32 || !key.EvenY() {
-			return pbt.Failf("taproot-key-form", "Taproot key is not a 32-byte x-only key with even Y")
-		}
-	} else if !bytes.Equal(key.Compress(), g0) {
-		return pbt.Failf("ref-inconsistent", "material public key differs from reported group key")
-	}
-	// (2) each party's secret share matches its own table entry (and, for CMP, its auxiliary secrets)
-	for _, id := range m.IDs {
-		if !ref.BaseMul(secrets[id]).Equal(shares0[id]) {
-			return pbt.Failf("own-share-mismatch:"+sch, fmt.Sprintf("secret share of %q times G is not its table entry", id))
-		}
-		if sch == proto.SchemeCMP {
-			c := m.CMP[id]
-			if !ref.BaseMul(conv.Big(c.ElGamal)).Equal(conv.Ref(c.Public[id].ElGamal)) {
-				return pbt.Failf("own-elgamal-mismatch", fmt.Sprintf("ElGamal secret of %q does not match its public entry", id))
-			}
-			n := new(big.Int).Mul(c.Paillier.P().Big(), c.Paillier.Q().Big())
-			if n.Cmp(c.Public[id].Paillier.N().Big()) != 0 || n.Cmp(c.Public[id].Pedersen.N().Big()) != 0 {
-				return pbt.Failf("own-paillier-mismatch", fmt.Sprintf("Paillier secret of %q does not match the public moduli", id))
-			}
-			if c.Threshold != m.T || c.ID != id {
-				return pbt.Failf("config-header", fmt.Sprintf("config of %q has ID %q threshold %d", id, c.ID, c.Threshold))
-			}
-		}
-	}
-	// (3) every subset of t+1 parties reconstructs the same key, from secrets and "in the exponent"
-	ids := append([]party.ID{}, m.IDs...)
-	sort.Slice(ids, func(i, j int) bool { return ids[i] < ids[j] })
-	var fail *pbt.Fail
-	ref.Subsets(len(ids), m.T+1, func(idx []int) {
-		if fail != nil {
-			return
-		}
-		xs := make([]*big.Int, len(idx))
-		ss := make([]*big.Int, len(idx))
-		ps := make([]ref.Pt, len(idx))
-		for k, i := range idx {
-			xs[k] = ref.IDScalar(string(ids[i]))
-			ss[k] = secrets[ids[i]]
-			ps[k] = shares0[ids[i]]
-		}
-		x := ref.Reconstruct(xs, ss)
-		if !ref.BaseMul(x).Equal(key) {
-			fail = pbt.Failf("reconstruction:"+sch, fmt.Sprintf("secret shares of subset %v do not reconstruct the group key", idx))
-			return
-		}
-		if !ref.ReconstructPoint(xs, ps).Equal(key) {
-			fail = pbt.Failf("exponent-interpolation:"+sch, fmt.Sprintf("table entries of subset %v do not interpolate to the group key", idx))
-		}
-	})
-	ev.Get().Count("reconstruction_subsets", int64(binom(len(ids), m.T+1)))
-	return fail
-}
-
-func binom(n, k int) int {
-	r := 1
-	for i := 0; i < k; i++ {
-		r = r * (n - i) / (i + 1)
-	}
-	return r
+	return nil
 }
 
 var prop = pbt.Define(pbt.Prop[Case]{Kind: "keygen", Class: classify, Run: run})
